@@ -82,7 +82,7 @@ def literal_strategy():
 def strategy(tier):
     d1 = st.fixed_dictionaries({"dir": st.just(1), "value": value_strategy(), "ctx": st.sampled_from(["exps_op", "exps_op", "ssbs_op", "menu", "casetext", "defaulttext", "template", "template", "flag"]),
                                 "depth": st.integers(0, 4), "pos": st.integers(0, 2), "crlf": st.sampled_from([False, False, False, True])})
-    d2 = st.fixed_dictionaries({"dir": st.just(2), "literal": literal_strategy(), "ctx": st.sampled_from(["arg", "lang", "menu", "msgcase", "posmark", "posmark_ssbs"]), "indent": st.integers(0, 3), "crlf": st.sampled_from([False, False, False, True])})
+    d2 = st.fixed_dictionaries({"dir": st.just(2), "literal": literal_strategy(), "ctx": st.sampled_from(["arg", "lang", "menu", "msgcase", "posmark", "posmark_ssbs", "scn_assign", "scn_cond", "bit_index"]), "indent": st.integers(0, 3), "crlf": st.sampled_from([False, False, False, True])})
     return weighted((2, d1), (1, d2))
 
 
@@ -395,6 +395,8 @@ def eval_literal(case, stt):
     pad = "    " * case["indent"]
     if k in ("int", "dec") and ctx in ("posmark", "posmark_ssbs"):
         return eval_posmark_literal(lit, text, ctx, pad, stt)
+    if k == "int" and ctx in ("scn_assign", "scn_cond", "bit_index"):
+        return eval_bracket_int(lit, text, ctx, pad, case, stt)
     if k in ("int", "dec") or ctx == "arg":
         src = f"def 0 {{\n{pad}TestOp({text});\n}}\n"
         getter = lambda c: find_param(c, "TestOp", 0)  # noqa
@@ -427,6 +429,44 @@ def eval_literal(case, stt):
         fails.append(Failure(f"literal_value:{k}:{lit_sig(lit, text)}", f"literal {text!r} should mean {ref!r}, compiled to {got!r}"))
     elif len(stt.samples) < 5 and k == "multi":
         stt.sample({"literal": text, "value": ref[1]})
+    return fails
+
+
+def eval_bracket_int(lit, text, ctx, pad, case, stt):
+    """an INTEGER literal in the bracket syntaxes that take bare integer tokens: `X = scn[a, b];`, `if (scn(X) == [a, b])`,
+    `if (X[i])` / `X[i] = 1;`"""
+    fails = []
+    try:
+        want = reflit.read_int(text)
+    except ValueError:
+        return fails
+    stt.count("literal_in_brackets:" + ctx)
+    if ctx == "scn_assign":
+        src = f"def 0 {{\n{pad}$V_1 = scn[{text}, 3];\n{pad}$V_2 = scn[4, {text}];\n}}\n"
+        probes = [("flag_SetScenario", 1, 0), ("flag_SetScenario", 2, 1)]
+    elif ctx == "scn_cond":
+        src = f"def 0 {{\n{pad}if (scn($V_1) == [{text}, 3]) {{ a(); }}\n{pad}if (scn($V_2) > [4, {text}]) {{ b(); }}\n}}\n"
+        probes = [("BranchScenarioNow", 1, 0), ("BranchScenarioAfter", 2, 0)]
+    else:
+        src = f"def 0 {{\n{pad}if ($V_1[{text}]) {{ a(); }}\n{pad}$V_2[{text}] = 1;\n}}\n"
+        probes = [("BranchBit", 1, 0), ("flag_CalcBit", 1, 0)]
+    src = _eol(src, case, stt)
+    comp, exc = call_guard(lambda: compile_text(src))
+    if exc is not None:
+        if want < 0 and exc[1].startswith(("SsbCompilerError:", "ParseError:", "ValueError:")):
+            return fails  # negative levels / indexes may be refused
+        fails.append(Failure(f"literal_rejected:int:{ctx}", f"integer literal {text!r} rejected: {exc[1]}\n{src}"))
+        return fails
+    stt.mark_nontrivial([text, ctx])
+    for opname, pidx, nth in probes:
+        ops = [op for r in comp.routine_ops for op in r if op.op_code.name == opname]
+        if len(ops) <= nth:
+            fails.append(Failure(f"lost:{ctx}", f"{opname} not found\n{src}"))
+            break
+        got = model.norm_real_param(ops[nth].params[pidx])
+        if got != want:
+            fails.append(Failure(f"literal_value:int:{ctx}", f"integer literal {text!r} should mean {want}, {opname} parameter {pidx} is {got!r}\n{src}"))
+            break
     return fails
 
 
